@@ -53,6 +53,7 @@ def run(ctx):
     if ctx.replay:
         return replay(ctx)
     ctx.prove("GoldModel.Props.C12")
+    ctx.prove("GoldModel.Props.C12Prog")
     if not ctx.build_harness():
         return ctx.finish(rule=RULE)
     q = ctx.tier == "quick"
